@@ -376,6 +376,13 @@ def child_case(ctx, rng, k):
 
 
 def run_shard(ctx):
+    if ctx.shard == 2 % ctx.nshards and __debug__:
+        # ambient configuration of a strict caller (python -W error, pytest filterwarnings=error), restricted to warnings issued
+        # by pyjelly's own modules: a warning on the rejection path must not get in the way of marking the stream failed
+        import warnings
+        warnings.filterwarnings("error", module=r"pyjelly(\..*)?$")
+        ctx.observe("ambient:pyjelly-warnings-as-errors-shard")
+        ctx.ambient = "pyjelly-warnings-as-errors"
     if ctx.shard == 1 % ctx.nshards:
         # a slice again in an interpreter started with -O: rejecting a statement / refusing a poisoned stream must not hinge on an assert
         from .. import childopt
